@@ -437,3 +437,174 @@ def rule_dump_options_closed(model: Model, rule_id: str = 'C19-R4') -> RuleResul
                 else:
                     r.ok()
     return r
+
+
+def rule_whole_value_delegation(model: Model, rule_id: str = 'C02-R5') -> RuleResult:
+    """C02 / C01: a converter that hands the whole input to one inner converter accepts nothing that inner converter has not seen."""
+    r = RuleResult(rule_id, "converters that wrap one inner converter accept a value only after the inner converter accepted it "
+                            "(no shortcut keyed by the raw input: 1.0 == 1 == True, and hash alike)", floor=3)
+    zone = conversion_zone(model)
+    for cls in family(model):
+        if cls.name in UNION_LIKE:
+            continue
+        attrs = subconv_attrs(model, cls)
+        for f in zone[cls.qualname]:
+            if 'collect_errors' in f.name or f.name == 'into_data':
+                continue
+            cfg = cfg_of(model, f)
+            nz = Normalizer(model, f, cfg)
+            whole = [sc for sc in find_subcalls(model, cls, f, nz, cfg, attrs)
+                     if sc.method == 'try_convert' and not sc.recv.startswith('ELEM(') and (sc.arg == 'VAL' or sc.arg.startswith('PHI(VAL|'))]
+            if not whole:
+                continue
+            if any(isinstance(c, ast.Attribute) and c.attr == f.name and isinstance(c.value, ast.Name)
+                   and f.params and c.value.id == f.params[0] for c in ast.walk(f.node)):
+                continue        # a recursive walk over nested containers: the inner converter sees the leaves
+            r.instances += 1
+            r.analysed.add(f.qualname)
+            rets = [n for n in cfg.live_nodes() if n.kind == 'return' and n.ast is not None and n.ast.value is not None]
+            bad = [n for n in rets if not any(cfg.node_dominates(sc.node, n) or sc.node is n for sc in whole)]
+            r.sample({'function': f.qualname, 'inner': whole[0].recv, 'accepting exits': len(rets), 'not behind the inner converter': len(bad)})
+            if bad:
+                for n in bad:
+                    r.fail(f.qualname, f"return {nz.expr(n.ast.value, n)[:80]} before {whole[0].recv}.try_convert", f.loc(n.ast),
+                           "a value is accepted without passing the inner converter: a look-up or test on the raw input treats values of another "
+                           "kind as equal (1.0, True and 1 are equal and hash alike), so e.g. 2.0 is accepted for an int-valued enum")
+            else:
+                r.ok()
+    return r
+
+
+def rule_keycache_keepalive(model: Model, rule_id: str = 'C10-R9') -> RuleResult:
+    """C10: an entry keyed by id() stays valid only while its arguments are alive: entry and keep-alive reference live and die together."""
+    r = RuleResult(rule_id, "every cache entry is stored together with a reference to its arguments, and that reference is dropped only "
+                            "together with the entry (ids are unique only among live objects)", floor=3)
+    call = model.func('pane.util.KeyCache.__call__')
+    cls = call.cls
+    assert cls is not None
+    funcs = [g for g in cls.methods.values() if isinstance(g.node, ast.FunctionDef) and g.name != '__init__']
+    vararg = call.node.args.vararg.arg if isinstance(call.node, ast.FunctionDef) and call.node.args.vararg else None
+    keep: t.Set[str] = set()
+    cache: t.Set[str] = set()
+    for g in funcs:
+        for x in ast.walk(g.node):
+            if isinstance(x, ast.Assign):
+                for tg in x.targets:
+                    if isinstance(tg, ast.Subscript) and isinstance(tg.value, ast.Attribute) and isinstance(tg.value.value, ast.Name) \
+                            and tg.value.value.id == 'self' and isinstance(x.value, ast.Tuple) and vararg \
+                            and any(isinstance(e, ast.Name) and e.id == vararg for e in x.value.elts):
+                        keep.add(tg.value.attr)
+            if isinstance(x, ast.Call) and isinstance(x.func, ast.Attribute) and x.func.attr == 'get' and isinstance(x.func.value, ast.Attribute) \
+                    and isinstance(x.func.value.value, ast.Name) and x.func.value.value.id == 'self':
+                cache.add(x.func.value.attr)
+    if len(keep) != 1 or len(cache) != 1:
+        raise AnalysisError(f"{call.loc()}: KeyCache: keep-alive table {sorted(keep)} / entry table {sorted(cache)} not identified")
+    ka, ca = keep.pop(), cache.pop()
+    events: t.List[t.Tuple[FuncInfo, Node, str, str, str]] = []     # (function, node, table, 'store'|'drop', key form)
+    for g in funcs:
+        cfg = cfg_of(model, g)
+        nz = Normalizer(model, g, cfg)
+        for n in cfg.live_nodes():
+            st = n.ast
+            if n.kind != 'stmt' or st is None:
+                continue
+            tgts: t.List[ast.AST] = []
+            if isinstance(st, ast.Assign):
+                tgts = list(st.targets)
+                kind = 'store'
+            elif isinstance(st, ast.Delete):
+                tgts = list(st.targets)
+                kind = 'drop'
+            for tg in tgts:
+                if isinstance(tg, ast.Subscript) and isinstance(tg.value, ast.Attribute) and isinstance(tg.value.value, ast.Name) \
+                        and tg.value.value.id == 'self' and tg.value.attr in (ka, ca):
+                    events.append((g, n, tg.value.attr, kind, nz.expr(tg.slice, n)))
+            for c in (walk_no_nested(st) if isinstance(st, ast.Expr) or isinstance(st, ast.Assign) else []):
+                if isinstance(c, ast.Call) and isinstance(c.func, ast.Attribute) and c.func.attr in ('pop', 'popitem', 'clear') \
+                        and isinstance(c.func.value, ast.Attribute) and isinstance(c.func.value.value, ast.Name) and c.func.value.value.id == 'self' \
+                        and c.func.value.attr in (ka, ca):
+                    events.append((g, n, c.func.value.attr, 'drop', nz.expr(c.args[0], n) if c.args else f'<{c.func.attr}>'))
+    for (g, n, table, kind, key) in events:
+        other = ca if table == ka else ka
+        if kind == 'store' and table == ka:
+            continue            # an extra reference is harmless
+        r.instances += 1
+        r.analysed.add(g.qualname)
+        cfg = cfg_of(model, g)
+        mine = cfg.conditions_of(n)
+        partner = [m for (g2, m, t2, k2, key2) in events if g2 is g and t2 == other and k2 == kind and key2 == key and cfg.conditions_of(m) == mine]
+        r.sample({'function': g.qualname, 'event': f"{kind} {table}[{key}]", 'paired': bool(partner)})
+        if partner:
+            r.ok()
+        elif kind == 'store':
+            r.fail(g.qualname, f"entry {ca}[{key}] stored without keeping its arguments alive", g.loc(n.ast),
+                   "the key may contain the id() of a temporary type; once it is collected a new type at the same address gets the stale converter")
+        else:
+            r.fail(g.qualname, f"{table}[{key}] dropped on its own", g.loc(n.ast),
+                   "the keep-alive reference and the entry are no longer dropped together: an entry outlives its arguments (a new type at the "
+                   "same address gets the dead type's converter), or a live entry loses its reference")
+    return r
+
+
+ONE_SHOT_CALLS = {'map', 'filter', 'zip', 'enumerate', 'reversed', 'iter'}
+
+
+def _one_shot(model: Model, f: FuncInfo, cfg: CFG, e: ast.AST, n: Node, depth: int = 0) -> t.Optional[str]:
+    """Why the value of ``e`` is an iterator that can be consumed only once (None if it is not known to be one)."""
+    if isinstance(e, ast.GeneratorExp):
+        return 'a generator expression'
+    if isinstance(e, ast.Call):
+        if isinstance(e.func, ast.Name) and e.func.id in ONE_SHOT_CALLS and not cfg.reaching().is_local(e.func.id):
+            return f'{e.func.id}(...)'
+        q = model.resolve(e.func, f.module, f)
+        if q and q.startswith('itertools.'):
+            return f'{q}(...)'
+        if q == 'typing.cast' and len(e.args) == 2:
+            return _one_shot(model, f, cfg, e.args[1], n, depth + 1)
+        return None
+    if isinstance(e, ast.IfExp):
+        return _one_shot(model, f, cfg, e.body, n, depth + 1) or _one_shot(model, f, cfg, e.orelse, n, depth + 1)
+    if isinstance(e, ast.Name) and depth < 6:
+        for d in cfg.reaching().at(n, e.id):
+            if d.kind in ('assign', 'walrus') and d.value is not None and not d.path:
+                why = _one_shot(model, f, cfg, d.value, d.node, depth + 1)
+                if why:
+                    return why
+    return None
+
+
+def rule_no_one_shot_state(model: Model, rule_id: str = 'C10-R10') -> RuleResult:
+    """C10 / C15: objects that outlive the call (fields, class records, converters) hold re-iterable collections, never one-shot iterators."""
+    r = RuleResult(rule_id, 'no generator / map / filter / zip object is stored in a field record, class record or converter attribute '
+                            '(a second traversal would see nothing)', floor=40)
+    for f in model.all_functions():
+        if not isinstance(f.node, ast.FunctionDef):
+            continue
+        cfg = cfg_of(model, f)
+        for n in cfg.live_nodes():
+            sites: t.List[t.Tuple[ast.AST, str, ast.AST]] = []
+            for root in node_exprs(n):
+                for c in walk_no_nested(root):
+                    if isinstance(c, ast.Call):
+                        q = model.resolve(c.func, f.module, f)
+                        if (q in model.classes and not model.is_subclass(q, 'builtins.BaseException')) or q == 'dataclasses.replace':
+                            for a in c.args:
+                                sites.append((c, f"{q.split('.')[-1]}(...)", a))
+                            for k in c.keywords:
+                                sites.append((c, f"{q.split('.')[-1]}({k.arg}=)", k.value))
+            st = n.ast
+            if n.kind == 'stmt' and isinstance(st, (ast.Assign, ast.AnnAssign)) and getattr(st, 'value', None) is not None:
+                tgts = st.targets if isinstance(st, ast.Assign) else [st.target]
+                for tg in tgts:
+                    if isinstance(tg, ast.Attribute) and isinstance(tg.value, ast.Name) and f.params and tg.value.id == f.params[0] and f.cls is not None:
+                        sites.append((st, f"{tg.value.id}.{tg.attr} =", st.value))
+            for (where, what, val) in sites:
+                r.instances += 1
+                why = _one_shot(model, f, cfg, val, n)
+                if why:
+                    r.fail(f.qualname, f"{what} {why}", f.loc(where),
+                           "the stored value is a one-shot iterator: whoever reads it first uses it up, and later readers (the converter built "
+                           "for another handler set, the next comparison ...) see an empty collection: the outcome depends on which call came first")
+                else:
+                    r.ok()
+    return r
